@@ -1,0 +1,29 @@
+//go:build verif
+
+package vgirpc
+
+// Verification hooks (build tag "verif") for the WWW-Authenticate builder and
+// the client-side parameter parser. Add-only; nothing here is compiled into
+// normal builds.
+
+// VerifC28Build runs the server-side header builder on an arbitrary metadata
+// URL and metadata value (no validation).
+func VerifC28Build(metadataURL string, m *OAuthResourceMetadata) string {
+	return buildWWWAuthenticate(metadataURL, m)
+}
+
+// VerifC28MetadataURL derives the well-known metadata URL from a resource URL
+// the way SetOAuthResourceMetadata does.
+func VerifC28MetadataURL(resource string) (string, error) {
+	return resourceMetadataURLFromResource(resource)
+}
+
+// VerifC28ParseParam runs the client-side quoted-parameter parser for an
+// arbitrary parameter name.
+func VerifC28ParseParam(header, param string) string {
+	return parseQuotedParam(header, param)
+}
+
+// VerifC28Configured returns the pre-built WWW-Authenticate value the server
+// puts on its 401 responses ("" when no OAuth metadata is configured).
+func (h *HttpServer) VerifC28Configured() string { return h.wwwAuthenticate }
